@@ -7,6 +7,7 @@ S = the property itself, per handler and world: the real support header (uigen o
    log calls plus the final object states are compared with model/Sem.v's run of the handler's source in the same world.
    Rejections: handlers on overloaded signals that do not collapse, on non-signals, with too many or ill-typed parameters.
 """
+import json
 import os
 import re
 import shutil
@@ -43,8 +44,111 @@ def line_arg(t, v):
     return exe.hexs(v)
 
 
+ARG_LISTS = [[], ["int"], ["QString"], ["bool"], ["int", "bool"], ["int", "QString"], ["int", "bool", "QString"], ["int", "bool", "int"], ["QString", "int"], ["int", "int"], ["double"],
+             ["int", "QString", "bool"]]
+CXX_ARG = {"int": "int", "bool": "bool", "QString": "const QString &", "double": "double"}
+OV_HEADER = "From QV Require Import model.Overload.\nFrom Coq Require Import List String NArith.\nImport ListNotations.\nOpen Scope string_scope.\n"
+
+
+def overload_sets(rng, n):
+    """sets of metatype entries found under ONE name: default-argument chains, genuine overloads of two, three and four entries, entries of different kinds and return types,
+    repeated entries; in every order (the answer must not depend on the order of the entries in the metatypes file)"""
+    sig = lambda a: (0, "void", a)
+    fixed = [[sig([]), sig(["int"]), sig(["QString"])], [sig(["int"]), sig(["int", "QString"]), sig(["int", "bool"])], [sig(["int", "bool"]), sig(["int"]), sig(["int", "QString"])],
+             [sig([]), sig(["int"]), sig(["int", "bool"])], [sig(["int", "bool"]), sig([]), sig(["int"])], [sig([]), sig(["int", "bool"])], [sig(["int"]), sig(["QString"])],
+             [sig([]), sig(["int"]), sig(["int", "bool"]), sig(["int", "bool", "QString"])], [sig([]), sig(["int"]), sig(["int", "bool"]), sig(["int", "bool", "int"]), sig(["int", "bool", "QString"])],
+             [sig(["int"])], [(1, "void", ["int"])], [(2, "int", [])], [sig([]), (1, "void", ["int"])], [(1, "void", []), (1, "void", ["int"])], [(1, "void", []), (1, "int", ["int"])],
+             [sig(["int"]), sig(["int"])], [sig([]), sig(["int"]), sig(["int"]), sig(["int", "bool"])], [sig(["int", "bool", "QString"]), sig(["int", "bool", "int"]), sig([])],
+             [sig(["double"]), sig(["int"]), sig([])], [(2, "void", []), sig(["int"]), sig(["int", "bool"])]]
+    out = list(fixed)
+    while len(out) < n:
+        k = rng.choice([2, 2, 3, 3, 3, 4, 4, 5])
+        if rng.random() < 0.5:
+            # prefixes of one list (a chain), possibly with one stranger
+            full = rng.choice([a for a in ARG_LISTS if len(a) >= 2])
+            es = [sig(full[:j]) for j in rng.sample(range(len(full) + 1), min(k, len(full) + 1))]
+            if rng.random() < 0.4:
+                es.append(rng.choice([sig(rng.choice(ARG_LISTS)), (rng.choice([1, 2]), rng.choice(["void", "int"]), rng.choice(ARG_LISTS))]))
+        else:
+            es = [(0 if rng.random() < 0.8 else rng.choice([1, 2]), "void" if rng.random() < 0.85 else "int", rng.choice(ARG_LISTS)) for _ in range(k)]
+            es = [(kd, "void" if kd == 0 else rt, a) for kd, rt, a in es]
+        rng.shuffle(es)
+        out.append(es)
+    return out
+
+
+def overload_leg(ctx, vh, rng):
+    sets = overload_sets(rng, 400 if ctx.tier == "thorough" else 90)
+    per_class = 12
+    classes = []
+    for c0 in range(0, len(sets), per_class):
+        sigs, slots, meths = [], [], []
+        for j, es in enumerate(sets[c0:c0 + per_class]):
+            for kd, rt, a in es:
+                (sigs, slots, meths)[kd].append({"name": "s%d" % j, "access": "public", "returnType": rt, "arguments": [{"type": t} for t in a]})
+        classes.append({"className": "OvObj%d" % (c0 // per_class), "qualifiedClassName": "OvObj%d" % (c0 // per_class), "object": True, "superClasses": [{"name": "QWidget", "access": "public"}],
+                        "signals": sigs, "slots": slots, "methods": meths})
+    path = os.path.join(C.BUILD, "c13_overloads_metatypes.json")
+    with open(path, "w") as f:
+        json.dump([{"classes": classes, "inputFile": "ov.h", "outputRevision": 68}], f)
+    old = os.environ.get("VERIF_EXTRA_METATYPES", "")
+    os.environ["VERIF_EXTRA_METATYPES"] = path
+    docs = ["import qmluic.QtWidgets\nQWidget {\n    QLineEdit { id: edit }\n    OvObj%d {\n        id: ov\n        onS%d: edit.clear()\n    }\n}\n" % (i // per_class, i % per_class) for i in range(len(sets))]
+    res = qml.run_docs(vh, docs)
+    os.environ["VERIF_EXTRA_METATYPES"] = old
+    terms, got = [], []
+    for es, d, r in zip(sets, docs, res):
+        ctx.count(("overload-set", repr(es)), len(es) >= 2)
+        ctx.dist("overload-set-%d-entries" % len(es))
+        rep = {"entries": [{"kind": ["signal", "slot", "method"][k], "returnType": rt, "arguments": a} for k, rt, a in es], "qml": d}
+        if not isinstance(r, dict) or "diags" not in r:
+            ctx.violation("a handler on a name with %d metatype entries: no result (%s)" % (len(es), str(r)[:200]), rep)
+            continue
+        msgs = [x["msg"] for x in r["diags"] if x["kind"] == "error"]
+        if any("cannot bind to overloaded signal" in m for m in msgs):
+            v = "VAmbiguous"
+        elif any("not a signal" in m for m in msgs):
+            v = "VNotSignal"
+        elif not msgs and r.get("header"):
+            m = re.findall(r"QObject::connect\(this->ui_->ov, QOverload<([^>]*)>::of\(&OvObj\d+::s\d+\)", r["header"])
+            if len(m) != 1:
+                ctx.violation("an accepted handler is connected %d times" % len(m), dict(rep, impl_output=r["header"]))
+                continue
+            inv = {v2: k2 for k2, v2 in CXX_ARG.items()}
+            args = [inv.get(a.strip(), a.strip()) for a in m[0].split(",")] if m[0].strip() else []
+            v = "VConnect %s" % C.coq_list(['"%s"' % a for a in args])
+            # S, without the model: the connected overload is one of the entries, it is a signal, every other entry is a signal whose arguments are its leading arguments
+            ok = any(k == 0 and a == args for k, rt, a in es) and all(k == 0 and a == args[:len(a)] for k, rt, a in es)
+            if not ok:
+                ctx.violation("a handler on an ambiguous overload set is accepted and connected to (%s): the entries are not default-argument variants of that signal" % ", ".join(args),
+                              dict(rep, impl_output=m[0], theorem_or_correspondence="C13_connected_signal_is_the_declared_one / S"))
+                continue
+        else:
+            ctx.violation("unexpected diagnostics for a handler on a generated overload set: %r" % msgs[:3], dict(rep, impl_output=msgs))
+            continue
+        if v != "VConnect" and v in ("VAmbiguous",) and len(es) >= 1:
+            # S: refused as ambiguous only if the entries are not pairwise variants
+            def ext(x, y):
+                return x[0] == y[0] and x[1] == y[1] and y[2][:len(x[2])] == x[2]
+            if all(ext(x, y) or ext(y, x) for x in es for y in es):
+                ctx.violation("default-argument variants are refused as an overloaded signal", dict(rep, impl_output=msgs, theorem_or_correspondence="C13_default_argument_variants_collapse / S"))
+                continue
+        terms.append("callback_verdict %s" % C.coq_list(['{| m_kind := %d; m_ret := "%s"; m_args := %s |}' % (k, rt, C.coq_list(['"%s"' % t for t in a])) for k, rt, a in es]))
+        got.append((v, rep))
+    ctx.coverage["overload_sets"] = len(sets)
+    if not ctx.model_ok or not terms:
+        return
+    mo = C.coq_eval_terms("c13_ov", OV_HEADER, terms, scope="string_scope")
+    norm = lambda x: re.sub(r"\s+", " ", x.replace("%string", "").replace("%N", "")).strip().strip("()").strip()
+    bad = [(t, m, g) for t, m, g in zip(terms, mo, got) if norm(m) != norm(g[0])]
+    ctx.coverage["overload_sets_compared_with_model"] = len(terms)
+    if bad and not ctx.violations:
+        t, m, g = bad[0]
+        ctx.broke("K", "uigen/objcode.rs uniquify_methods vs model/Overload.v", "model and implementation differ on %d sets of entries; first: %s\nmodel=%s\nimpl=%s" % (len(bad), t, m, g[0]))
+
+
 def run(ctx):
-    ctx.proof_leg(TARGETS, PINS, k_targets=exe.K_TARGETS)
+    ctx.proof_leg(TARGETS, PINS, k_targets=exe.K_TARGETS + ["model/Overload.vo"])
     vh = ctx.need_harness()
     rng = ctx.rng
     os.environ["VERIF_EXTRA_METATYPES"] = cxx.write_e0w()
@@ -89,6 +193,8 @@ def run(ctx):
                 ctx.coverage["rejection_samples"].append({"qml": src[:200], "diag": r["diags"][0]["msg"]})
     ctx.coverage["handlers_generated"] = len(items)
     ctx.coverage["handlers_accepted"] = len(acc)
+    overload_leg(ctx, vh, rng)
+    os.environ["VERIF_EXTRA_METATYPES"] = cxx.write_e0w()
     # ---- rejections the property names
     rej = [("onChanged", "a.act(1)", "cannot bind to overloaded signal"), ("onAct", "a.act(1)", "not a signal"), ("onCompute", "a.act(1)", "not a signal"),
            ("onFired", "function(x: int) { a.act(x) }", "too many callback arguments"), ("onFired2", "function(x: QString) { a.act(1) }", "incompatible callback arguments"),
